@@ -106,8 +106,22 @@ def m_bounds_part(chk, tuc):
                 return False
             prev = float("inf") if r is None else r
         return True
+    # the same decision at the far end of the index type: sides next to i32::MAX (a check written as `next.l > prev.r` is right there, one written
+    # as `next.l >= prev.r + 1` with a saturating or wrapping +1 is not); these lists carry --fallback-oob so that an accepted one also succeeds
+    edge = [None, 1, 2, 2147483646, 2147483647]
+    eone = [(l, r) for l in edge for r in edge if wellformed_bound(l, r) and (l or 0) > 2 or (r or 0) > 2]
+    eone = [(l, r) for (l, r) in eone if wellformed_bound(l, r)]
+    elists = [[b] for b in eone] + [[a, b] for a in eone + [(1, 1), (1, 2)] for b in eone]
+    elists = elists if chk.tier != "quick" else elists[: len(eone)] + rng.sample(elists[len(eone):], min(300, len(elists) - len(eone)))
     probe_in = b"a-b-c-d\na-b-c-d\n"
     cases, metas = [], []
+    for bs in [("edge", x) for x in elists]:
+        _, bs = bs
+        txt = ",".join(bound_text(l, r, None, l == r and rng.random() < 0.5) for l, r in bs)
+        argv = rng.choice([["-M", "1", "-d", "-", "--fallback-oob=X", "-f", txt], ["-f", txt, "-d", "-", "-M", "64", "--fallback-oob", "X"]])
+        cases.append((argv, b""))
+        cases.append((argv, probe_in))
+        metas.append((argv, bs))
     for bs in lists:
         txt = ",".join(bound_text(l, r, None, l == r and rng.random() < 0.5) for l, r in bs)
         if rng.random() < 0.2:
